@@ -12,9 +12,26 @@ import PdshVerif.Dshbak.Options
 /-!
 # C19  dshbak regroups output losslessly; its host headers mean what pdsh means
 
-Theorems about the model `Dshbak/Model.lean` of scripts/dshbak (tied to the Perl script by
-checks/c19.py).  Everything holds for EVERY order in which Perl may enumerate its hashes: the key
+Theorems about the model `Dshbak/Model.lean` + `Dshbak/Options.lean` of scripts/dshbak (tied to the Perl
+script by checks/c19.py).  Everything holds for EVERY order in which Perl may enumerate its hashes: the key
 order `ks` and the order `gs` of the suffix groups of a header are universally quantified.
+
+clause of the property text                              theorem(s)
+-------------------------------------------------------  -----------------------------------------------------------
+for each label exactly that host's lines, in order       `lines_preserved` (all inputs), `match_formatted`,
+                                                         `match_only_labelled`, `input_is_its_lines`, `input_text_table`
+... to the report                                        `normal_spec`
+... or, with -d, to one file per host                    `per_file_spec` (paths `DIR/LABEL` pairwise different, one per
+                                                         label, holding its lines), `file_names_are_labels`, `plan_d`,
+                                                         `plan_f`; option block: `plan_cases`, `plan_exclusive`
+-c: merged iff outputs identical                         `coalesce_iff`, `coalesce_spec`
+every host under exactly one header, each body once      `partition`, `coalesce_spec` (`once`, `bodyOnce`)
+a header, read as a pdsh expression, expands to exactly  `compress_expands(_repaired)`, `header_expands`,
+the hosts whose output it heads                          `header_parses_back`, `report_headers_parse_back`,
+                                                         `coalesced_headers_spec(_repaired)`, `coalesced_text_spec`,
+                                                         `ranges_within_limit`, `ranges_per_bracket`
+which labels are outside the header → parser tie         `outside_parser_domain_iff` (exactly: `,` `[` `]`, > 1000 bytes,
+                                                         number ≥ 2^64-1); regrouping stays lossless for them
 
 Proved:  the per-tag lists are exactly the tag's lines in input order (all inputs);  the matcher
 recovers label and body of every well-formed labelled line and ignores lines without a colon;
@@ -26,15 +43,19 @@ it denotes satisfies `Spec.CoalescedOk`.
 `header_expands`: the header TEXT of the repaired script, read by C01's model of `hostlist_create`
 (any variant of hostlist.c), yields exactly the group — the bridge between the Perl compressor and
 the C parser as a theorem (`Dshbak/HostlistBridge.lean`, `HeaderExpands.lean`).
+OPTIONS (`Dshbak/Options.lean`): the block "Process args" test by test (`plan`): the script either stops before it
+reads input (usage, exit 0 / fatal, exit 1) or runs exactly one output function; -d DIR [-f] writes one file per
+label.
 Not proved here:  Perl itself and the C parser are tied to their models by the checks (C19 runs the
 real `pdsh -Q -w HEADER` on every generated header as correspondence; C01 ties hostlist.c to its
-model);  for the UNREPAIRED script the text-level statement is false (F19-EMPTYSTEM, F19-LONGRUN).
+model);  for the UNREPAIRED script the text-level statement is false (F19-EMPTYSTEM, F19-LONGRUN);  the file
+system under DIR (which file `DIR/LABEL` is when LABEL is a path: pinned on the real script, F19-DIRLABEL).
 Genuine defects mirrored by the model, each with a switchable repaired variant that the check
 selects by probing the real script: D21 (`unterminated_dropped` / `repaired_keeps_last`),
 F19-EMPTYSTEM (`emptystem_witness`; excluded from `compress_expands` by `NoStemClash`, no exclusion
 left in `compress_expands_repaired`), F19-LONGRUN (`longrun_witness`, `ranges_within_limit`;
 `compress_expands` holds for every limit), F19-MANYRANGES (`manyranges_witness`,
-`ranges_per_bracket`).
+`ranges_per_bracket`), F19-DIRZERO (`dirzero_witness`: `-d 0` is taken for "no -d"; open).
 -/
 namespace PdshVerif.Props.C19
 open PdshVerif.Dshbak
